@@ -405,6 +405,43 @@ mod tests {
     }
 
     #[test]
+    fn argument_values_6_4_1() {
+        // §6.4.1 CoerceArgumentValues, steps 5.e–5.j, on `f(a: Int! = 5, b: Int, c: [Int], i: In)`
+        let s = Schema::from_sdl("type Query { f(a: Int! = 5, b: Int, c: [Int], i: In): Int } input In { r: Int! d: Int = 7 n: Int }").unwrap();
+        let defs = s.field("Query", "f").unwrap().args.clone();
+        let run = |q: &str, vars: &str| -> R<Vec<(String, Val)>> {
+            let doc = crate::parse::parse_exec(q).unwrap();
+            let crate::ast::ExecDef::Op(op) = &doc.defs[0] else { unreachable!() };
+            let crate::ast::Selection::Field(f) = &op.sel[0] else { unreachable!() };
+            let given: serde_json::Map<String, J> = serde_json::from_str(vars).unwrap();
+            let vv = coerce_variables(&s, &op.vars, &given)?;
+            coerce_arguments(&s, &defs, &f.args, &vv)
+        };
+        let a = |v: Val| ("a".to_string(), v);
+        // 5.h: a variable without a runtime value counts as "no value" → the argument's default applies
+        assert_eq!(run("query($v: Int) { f(a: $v) }", "{}"), Ok(vec![a(Val::Int(5))]));
+        assert_eq!(run("{ f }", "{}"), Ok(vec![a(Val::Int(5))]));
+        // 5.i: non-null argument type and the value is null (explicitly, or through a variable's own default) → field error
+        assert!(run("query($v: Int) { f(a: $v) }", r#"{"v":null}"#).is_err());
+        assert!(run("query($v: Int = null) { f(a: $v) }", "{}").is_err());
+        assert!(run("{ f(a: null) }", "{}").is_err());
+        // 5.j: hasValue → the value; null is a value; no value and no default → no entry
+        assert_eq!(run("query($v: Int) { f(b: $v) }", r#"{"v":null}"#), Ok(vec![a(Val::Int(5)), ("b".into(), Val::Null)]));
+        assert_eq!(run("query($v: Int) { f(b: $v) }", "{}"), Ok(vec![a(Val::Int(5))]));
+        assert_eq!(run("query($v: Int = 9) { f(b: $v) }", "{}"), Ok(vec![a(Val::Int(5)), ("b".into(), Val::Int(9))]));
+        // §6.1.2 3.h: a non-null variable without value, or null, is a request error wherever it is used
+        assert!(run("query($v: Int!) { f(b: $v) }", "{}").is_err());
+        assert!(run("query($v: Int!) { f(b: $v) }", r#"{"v":null}"#).is_err());
+        // §3.10: an input field given as a variable without runtime value takes the field's default; §3.11
+        // (as implemented by graphql-js valueFromAST): such a variable as a list item is a null item
+        assert_eq!(run("query($v: Int) { f(i: {r: 1, d: $v}) }", "{}"), Ok(vec![a(Val::Int(5)), ("i".into(), Val::Obj(vec![("r".into(), Val::Int(1)), ("d".into(), Val::Int(7))]))]));
+        assert_eq!(run("query($v: Int) { f(i: {r: 1, n: $v}) }", "{}"), Ok(vec![a(Val::Int(5)), ("i".into(), Val::Obj(vec![("r".into(), Val::Int(1)), ("d".into(), Val::Int(7))]))]));
+        assert_eq!(run("query($v: Int) { f(c: [1, $v]) }", "{}"), Ok(vec![a(Val::Int(5)), ("c".into(), Val::List(vec![Val::Int(1), Val::Null]))]));
+        // §3.11: a single variable value for a list type is wrapped when the *variable* is coerced
+        assert_eq!(run("query($v: [Int]) { f(c: $v) }", r#"{"v":3}"#), Ok(vec![a(Val::Int(5)), ("c".into(), Val::List(vec![Val::Int(3)]))]));
+    }
+
+    #[test]
     fn variables() {
         let s = sch();
         let defs = match &crate::parse::parse_exec("query($a: Int = 5, $b: Int!, $c: [Int], $e: E) { a }").unwrap().defs[0] {
